@@ -39,7 +39,7 @@ def plan(tier, seed):
     else:
         lengths = list(range(1, 200)) + [888, 889, 890, 895, 896, 897, 1777, 1778, 1779, 4096, 10000, 20000]
         fault_sets = [(50, 127), (100, 5), (23, 2), (64, 3), (900, 127), (15, 1), (1000, 64), (200, 10), (8, 127), (7, 127),
-                      (1800, 127), (301, 4)]
+                      (1800, 127), (301, 4), (889, 127), (890, 127), (63, 9), (500, 7), (129, 2), (2500, 100), (64, 64)]
     shards = [{"kind": "undisturbed", "lengths": lengths[i::8], "cs": seed * 100 + i} for i in range(8)]
     for i, (n, blk) in enumerate(fault_sets):
         for crc in (True, False):
